@@ -1185,4 +1185,72 @@ theorem C12_log_quote_strong_partial (s : Text) (hs : ∀ c ∈ s, c ≠ '\\') :
 example : (∀ c ∈ ['a', '"', 'b'], c ≠ '\\') ∧ logEscape ['a', '"', 'b'] = ['a', '\\', '"', 'b'] := by
   decide +kernel
 
+/-! ### the whole access-log line -/
+
+/-- on the marked line: every double quote that does NOT come from the format literal is
+    immediately preceded by a backslash that does not come from the literal either -/
+def gmAux : Bool → List (Char × Bool) → Bool
+  | _, [] => true
+  | p, (c, lit) :: rest => (lit || c != '"' || p) && gmAux (!lit && c == '\\') rest
+
+theorem gmAux_mono (l : List (Char × Bool)) : gmAux false l = true → ∀ p, gmAux p l = true := by
+  intro h p
+  cases l with
+  | nil => rfl
+  | cons x rest =>
+    obtain ⟨c, lit⟩ := x
+    simp only [gmAux, Bool.and_eq_true, Bool.or_eq_true, Bool.or_false] at h ⊢
+    exact ⟨Or.inl h.1, h.2⟩
+
+theorem gmAux_field (t : Text) (X : List (Char × Bool)) (hX : gmAux false X = true) :
+    ∀ p, guardedAux p t = true → gmAux p (t.map (·, false) ++ X) = true := by
+  induction t with
+  | nil => intro p _; exact gmAux_mono X hX p
+  | cons c rest ih =>
+    intro p h
+    simp only [guardedAux, Bool.and_eq_true] at h
+    simp only [List.map_cons, List.cons_append, gmAux, Bool.and_eq_true, Bool.false_or, Bool.not_false,
+      Bool.true_and]
+    exact ⟨h.1, ih _ h.2⟩
+
+theorem gmAux_lit (s : Text) (X : List (Char × Bool)) (hX : gmAux false X = true) :
+    ∀ p, gmAux p (s.map (·, true) ++ X) = true := by
+  induction s with
+  | nil => intro p; exact gmAux_mono X hX p
+  | cons c rest ih =>
+    intro p
+    simp only [List.map_cons, List.cons_append, gmAux, Bool.true_or, Bool.not_true, Bool.false_and,
+      Bool.true_and]
+    exact ih false
+
+/-- **C12_log_line_quotes_guarded**: in the whole entry, for every format and every atom values,
+    each double quote that comes from an atom (request line, Referer, User-Agent, login, host …)
+    is immediately preceded by a backslash coming from the same atom; the only bare quotes are
+    the ones the format itself writes. -/
+theorem C12_log_line_quotes_guarded (atoms : List (Text × Text)) :
+    ∀ (tpl : List Piece) (out : List (Char × Bool)),
+      renderMarked logEscape atoms tpl = some out → gmAux false out = true := by
+  intro tpl
+  induction tpl with
+  | nil => intro out h; simp [renderMarked] at h; subst h; rfl
+  | cons pc rest ih =>
+    intro out h
+    cases pc with
+    | lit s =>
+      simp only [renderMarked, Option.map_eq_some_iff] at h
+      obtain ⟨r, hr, rfl⟩ := h
+      exact gmAux_lit s r (ih r hr) false
+    | field n =>
+      simp only [renderMarked] at h
+      cases hl : lookup atoms n with
+      | none => rw [hl] at h; cases h
+      | some v =>
+        cases hr : renderMarked logEscape atoms rest with
+        | none => rw [hl, hr] at h; cases h
+        | some r =>
+          rw [hl, hr] at h
+          have : out = (logEscape v).map (·, false) ++ r := by cases h; rfl
+          subst this
+          exact gmAux_field _ r (ih r hr) false (C12_log_quote_guarded v)
+
 end CpProofs.C12
